@@ -6,10 +6,10 @@ from cminx.config import Settings
 
 HAS_NAME = @@HAS_NAME@@
 NL_ = @@NAMELEN@@        # length of the module name
-NB = @@NB@@              # number of body lines
-L = @@L@@                # length of each body line / of the following command's doc line
+BLENS = @@BLENS@@        # length of every body line of the module doccomment (0 = empty line, written as the bare '#')
+L = @@L@@                # length of the following command's doc line
 FOLLOW_DOC = @@FOLLOW_DOC@@   # the following command carries its own doccomment
-NCP = @@NCP@@            # NAMELEN + NB*L + L
+NCP = @@NCP@@            # NAMELEN + sum(BLENS) + L
 hc.shim_re("real")
 hc.quiet_logging()
 
@@ -32,14 +32,14 @@ def check(cps: $$CPS$$, tc: Tuple[int, int], hc_: int) -> bool:
     name = pc.take(NL_) if HAS_NAME else ""
     if not HAS_NAME:
         pc.take(NL_)
-    body = [pc.take(L) for _ in range(NB)]
+    body = [pc.take(n) for n in BLENS]
     fdoc = pc.take(L)
     for x in body + [fdoc]:
         if "]]" in x:
             return True
     block = "#[[[ @module" + ((" " + name) if HAS_NAME else "")
     for b in body:
-        block = block + chr(10) + "# " + b
+        block = block + chr(10) + ("# " + b if b else "#")
     block = block + chr(10) + "#]]"
     mdoc = "".join(b + chr(10) for b in body)
     fblock = hc.canon_block("", [fdoc]) if FOLLOW_DOC else None
